@@ -248,7 +248,8 @@ let () =
     if n > 0 then for i = 1 to nrandom do
         let c = List.nth !cfgs (i mod n) in random_case !fixed c (Hashtbl.find names c.id) done
   end else begin
-    let n = ref 0 and nontrivial = ref 0 and hangs = ref 0 and known = ref 0 in
+    let n = ref 0 and nontrivial = ref 0 and hangs = ref 0 and known = ref 0 and panics = ref 0 in
+    let contains s sub = (try ignore (Str.search_forward (Str.regexp_string sub) s 0); true with Not_found -> false) in
     read_lines (fun line ->
         if String.length line > 0 && line.[0] = '#' then print_endline line else
         let f = split_tab line in
@@ -266,6 +267,7 @@ let () =
             | Some s -> (match s.M.c_pc with M.RJoin (true, _, _) -> true | _ -> false), s.M.undisc
             | None -> false, false in
           if status = "HANG" then incr hangs;
+          if contains impl "P:dead" then incr panics;
           if status = "HANG" && drained_join then begin
             if undisc && !fixed then begin incr known; Printf.printf "KNOWN\tundisciplined\t%s\t%s\n" case impl end
             else report "spec" case impl "run() returns: every delivered event had been received when it was called"
@@ -287,6 +289,6 @@ let () =
            | None -> ());
           if impl <> expected then report "model" case impl expected
         | _ -> ());
-    Printf.printf "#RUNNER\tcases=%d\tmismatches=%d\tdistinct_nontrivial=%d\thangs=%d\tknown_undisciplined=%d\tfixed=%d\n"
-      !n !mismatches !nontrivial !hangs !known (if !fixed then 1 else 0)
+    Printf.printf "#RUNNER\tcases=%d\tmismatches=%d\tdistinct_nontrivial=%d\thangs=%d\tknown_undisciplined=%d\tabort_panics=%d\tfixed=%d\n"
+      !n !mismatches !nontrivial !hangs !known !panics (if !fixed then 1 else 0)
   end
